@@ -713,11 +713,8 @@ pub fn replay(ctx: &mut Ctx, v: &Value) {
     }
     match run_single("c06-replay", &super::s(v, "src")) {
         Err(e) => {
-            if super::s(v, "expect") == "compiles" {
-                ctx.violation(&format!("program does not compile: {}", e.lines().next().unwrap_or("")), v);
-            } else {
-                crate::ev::inconclusive(&format!("replayed program does not compile: {e}"));
-            }
+            // (stored programs compile on the tree they were stored for: this check judges compile failures)
+            ctx.violation(&format!("program does not compile: {}", e.lines().find(|l| l.starts_with("error")).or(e.lines().next()).unwrap_or("")), v);
         }
         Ok((st, msg)) => {
             if st != "ok" {
